@@ -659,10 +659,21 @@ func registerImportChecks() {
 		// near misses of the local path
 		for i := 0; i < cx.N(500, 10000); i++ {
 			r := cx.R.Fork()
-			local := pick(r, []string{"a.com/x", "github.com/u/pkg", "x", "a.com/x/y", "example.com/foo/v2", "a.com/x/v3", "gopkg.in/yaml.v2"})
+			local := pick(r, []string{"a.com/x", "github.com/u/pkg", "x", "a.com/x/y", "example.com/foo/v2", "a.com/x/v3", "gopkg.in/yaml.v2",
+				// (local paths that are themselves vendored copies, or live under internal/)
+				"example.com/app/vendor/example.com/lib", "vendor/golang.org/x/net", "a.com/x/internal/y", "a.com/vendor/b.org/vendor/c"})
 			near := []string{local, local + "/", local + "x", "b/" + local, strings.ToUpper(local), strings.TrimSuffix(local, "x"), local + "/x", "a.com", local[1:],
 				local + "/v2", local + "/v3", strings.TrimSuffix(strings.TrimSuffix(local, "/v2"), "/v3"), strings.TrimSuffix(local, ".v2"), local + ".v2",
 				strings.Replace(local, "/v2", "/v3", 1), local + "/internal", "vendor/" + local, strings.ToLower(local) + "_test"}
+			if k := strings.LastIndex(local, "/vendor/"); k >= 0 {
+				near = append(near, local[k+len("/vendor/"):], local[:k], local[:k]+"/vendor")
+			}
+			if strings.HasPrefix(local, "vendor/") {
+				near = append(near, strings.TrimPrefix(local, "vendor/"))
+			}
+			if k := strings.LastIndex(local, "/internal/"); k >= 0 {
+				near = append(near, local[k+len("/internal/"):], local[:k])
+			}
 			pool := &PathPool{}
 			seen := map[string]bool{}
 			for _, p := range near {
